@@ -138,7 +138,16 @@ def c13():
         _KEEP["page"] = _page()
         _KEEP["doc"] = H.HTMLDocument(_KEEP["page"], lang="en")
     prefix, iv = _settings("n13")
+    # (between two uses: another tree is built from a piece of the kept page and extended; what earlier renderings
+    #  returned is edited by the caller)
+    other = H.Tag("section", _KEEP["page"].children[1].children)
+    other.append(H.tags.p("only in the other tree"), H.head_content(tags.title("other")))
+    other.render()
+    if "last13" in _KEEP:
+        _KEEP["last13"]["dependencies"].reverse()
+        _KEEP["last13"]["dependencies"].append(H.HTMLDependency("appended-by-caller", "1.0"))
     kept = _KEEP["doc"].render(lib_prefix=prefix, include_version=iv)
+    _KEEP["last13"] = kept
     kept2 = H.HTMLDocument(_KEEP["page"], lang="en").render(lib_prefix=prefix, include_version=iv)
     fresh = H.HTMLDocument(_page(), lang="en").render(lib_prefix=prefix, include_version=iv)
     return dg(("kept objects render like fresh ones", _same(kept, fresh), _same(kept2, fresh), str(_KEEP["page"]) == str(_page())))
@@ -148,7 +157,12 @@ def c14():
     if "text" not in _KEEP:
         _KEEP["text"] = _text()
     prefix, iv = _settings("n14")
+    if "last14" in _KEEP:
+        _KEEP["last14"]["dependencies"].reverse()
+        _KEEP["last14"]["dependencies"].append(H.HTMLDependency("appended-by-caller", "1.0"))
     kept = _KEEP["text"].render(lib_prefix=prefix, include_version=iv)
+    _KEEP["last14"] = {"dependencies": kept["dependencies"]}
+    kept = {"html": kept["html"], "dependencies": list(kept["dependencies"])}
     fresh = _text().render(lib_prefix=prefix, include_version=iv)
     return dg(("kept objects render like fresh ones", _same(kept, fresh)))
 
